@@ -80,6 +80,10 @@ One(d) ==
    /\ P(CaseOf(g, [nm \in {"x1", "extra"} |-> IF nm = "extra" THEN Nil ELSE Iota("f32", ConformShape(d), 0)], <<"one_input", "extra_name_nil">>))
    /\ P(CaseOf(g, Supply({"other"}, [nm \in {"other"} |-> ConformShape(d)]), <<"one_input", "wrong_name">>))
    /\ P(CaseOf(g, Supply({"x1", "extra"}, [nm \in {"x1", "extra"} |-> ConformShape(d)]), <<"one_input", "extra_name">>))
+   \* an extra tensor named like a node output / the graph output (a caller that merges the previous outputs into its next feed): the
+   \* signature speaks of declared inputs only, and the node's result replaces the stray entry
+   /\ \A xn \in {g.outputs[1], g.nodes[1].outs[1]} :
+         P(CaseOf(g, Supply({"x1", xn}, [nm \in {"x1", xn} |-> ConformShape(d)]), <<"one_input", "extra_name_of_an_output">>))
    /\ LET gs == GraphOf(<<d>>, {1}) IN
       /\ P(CaseOf(gs, <<>>, <<"shadowed", "not_supplied">>))
       /\ P(CaseOf(gs, [nm \in {"x1"} |-> Nil], <<"shadowed", "nil_tensor">>))
